@@ -540,12 +540,24 @@ def scopingOk (noDeps : Bool) (srcs : List Sig) (t : GenTrait) (im : GenImpl) : 
   t.params.all (fun q => srcs.any (fun src => (liftedParams noDeps src).contains q)) &&
   im.traitRef == [i t.ident] ++ angle (t.params.map GParam.argToks)
 
+/-- the lifetime written on the dependency reference, if any -/
+def Sig.depRefLifetime (s : Sig) : Option String :=
+  match s.inputs with
+  | .typed _ _ (.ref_ lt _ _) :: _ => lt
+  | _ => none
+
+/-- the `__impl` parameter of an impl-block method: for static dispatch it *is* the dependency
+    parameter (`&'a impl D` becomes `__impl: &'a ::entrait::Impl<EntraitT>`); for dynamic dispatch the
+    dependency parameter becomes `&'a self` and `__impl: &::entrait::Impl<EntraitT>` follows -/
+def implRecvOf (dynRef : Bool) (s : Sig) : FnArg :=
+  if dynRef then implReceiverArg else implReceiverWith s.depRefLifetime
+
 /-- a delegating method of an impl block: `__impl` first (after `&self` for dynamic dispatch) -/
 def implBlockSigOk (dynRef : Bool) (src : Sig) (m : GenMember) : Bool :=
   match m.sig? with
   | some g => sigTypesAgree false 1 src g && g.output == src.output && g.async_ == src.async_ &&
-      ((typedArgs g.inputs).head? == some implReceiverArg) &&
-      (if dynRef then g.inputs.head? == expectedReceiver false src else g.inputs.head? == some implReceiverArg)
+      ((typedArgs g.inputs).head? == some (implRecvOf dynRef src)) &&
+      (if dynRef then g.inputs.head? == expectedReceiver false src else g.inputs.head? == some (implRecvOf false src))
   | none => false
 
 def P_C03 (v : Variant) (attr : Toks) (item : Item) (view : View) : Bool :=
@@ -639,9 +651,12 @@ def wherePredsOk (target : Ty) (declared : List Toks) (userPreds : List WherePre
     | .ty [] bt bs false :: rest => bt == target && sameMultiset bs declared && rest.all (fun q => userPreds.contains q)
     | _ => false
 
+/-- the first type / const parameter of an impl (lifetime parameters come first) -/
+def macroParam (ps : List GParam) : Option GParam := (ps.filter (fun q => !q.isLifetime)).head?
+
 /-- the macro's own type parameter: `EntraitT: Sync [+ Send] + 'static` -/
 def implTParamOk (byValue : Bool) (ps : List GParam) : Bool :=
-  match ps.head? with
+  match macroParam ps with
   | some (.ty [] "EntraitT" bs false none) =>
       sameMultiset bs ([syncToks] ++ (if byValue then [sendToks] else []) ++ [staticToks])
   | _ => false
@@ -680,7 +695,7 @@ def P_C05 (v : Variant) (attr : Toks) (item : Item) (view : View) : Bool :=
             t.attrs.count entraitForTraitAttr == 1 &&
             im.selfTy == ty.stripRefs.print &&
             -- not a blanket impl: parameterised only by the function's own lifted generics
-            im.params == liftedParams false f.sig &&
+            im.params == (liftedParams false f.sig).map GParam.stripDefault &&
             wherePredsOk selfTy_ [] f.sig.generics.preds im.preds
         | _, _, _ => false
   | _ => true
@@ -721,7 +736,9 @@ def forwardsAll (a : TraitAttr) (t : TraitItem) (im : GenImpl) : Bool :=
 
 def implHeaderOk (t : TraitItem) (im : GenImpl) : Bool :=
   im.selfTy == implPathToks &&
-  im.params == implTParam false :: t.generics.params &&
+  -- the trait's lifetimes, then the macro's parameter, then the trait's other parameters without defaults
+  im.params == t.generics.params.filter GParam.isLifetime ++ [implTParam false] ++
+    (t.generics.params.filter (fun q => !q.isLifetime)).map GParam.stripDefault &&
   im.traitRef == traitWithArgs t &&
   im.preds.drop 1 == t.generics.preds
 
@@ -1030,7 +1047,7 @@ def macroBoundOk (b : Toks) : Bool := b == syncToks || b == sendToks || b == sta
 
 /-- the macro's own type parameter comes first and carries only the fixed bounds -/
 def macroHeadOk (ps : List GParam) : Bool :=
-  match ps.head? with
+  match macroParam ps with
   | some (.ty _ "EntraitT" bs _ _) => bs.all macroBoundOk
   | _ => false
 
@@ -1060,7 +1077,7 @@ def absolute (ts : Toks) : Bool :=
 
 /-- a bound on the macro's own type parameter is an absolute path (or a lifetime) -/
 def macroHeadAbsolute (ps : List GParam) : Bool :=
-  match ps.head? with
+  match macroParam ps with
   | some (.ty _ "EntraitT" bs _ _) => bs.all absolute
   | _ => false
 
